@@ -34,6 +34,14 @@ CHECKS = {
    text="Histories that reopen with a different index bit size (pairs from 8..17 quick, 8..24 thorough), or try to open with a different index/primary file-size limit, are generated from KV.tla and executed; TLC judges contents unchanged after re-bucketing and C01 behaviour afterwards, that a mismatching limit is refused with the specific error type (errors.As) leaving the directory byte-identical, and that the original settings reopen intact. The interrupted-translation clause is decided by the crash engine (C03 machinery) - see level_note.",
    note="crash points inside the translation are not yet enumerated by this check in this revision; the first two sentences of the property are covered.",
    ref="DESIGN.md §6 C09"),
+ "C07": dict(engine="seq", technique="Fsck.tla (F1-F5) evaluated by TLC on projections of the real files taken by an independent reader at every quiescent point of TLC-generated histories",
+   text="Fsck.tla states the mutual-consistency rules as predicates over a projection of the directory: F1 buckets point at complete non-deleted records tagged with their bucket in files >= FirstFile; F2 entries point at complete non-deleted primary records of the recorded size whose digest carries the bucket bits and the stored prefix; F3 sorted/prefix-free/distinct locations; F4 no live location on the freelist or .gc; F5 header first-file numbers. An independent reader of the formats (fsckread, no shared code) projects the real directory after every Flush, GC cycle, reopen, bit-size change and iteration of all short histories and of simulated long ones, and TLC (FsckTrace.tla) evaluates the rules on each projection together with the live bucket table.",
+   note="quiescent states of sequential histories only in this check; recovered states are projected by the crash engine, concurrent end states by the concurrency engine; F6 (snapshot = rescan) is judged by C02.",
+   ref="DESIGN.md §3.4, §6 C07"),
+ "C13": dict(engine="seq", technique="Fsck.tla F7 (multiset equality freelist+.gc vs unreferenced unmarked primary records) and F4 evaluated by TLC on projections of the real files",
+   text="File-level form of exactly-once accounting: at every quiescent point the freelist and .gc entries whose record is still unmarked must be, as a multiset, exactly the primary records that are neither marked deleted nor named by a live index entry - a lost entry shows as an unreferenced live-looking record, a duplicate as multiplicity 2, a premature or spurious one as a referenced location (F4/F7-current-location-freed). Evaluated by TLC on projections after every Flush, GC cycle (incl. cycles stopped by their time limit, relocation) and reopen of all short histories and simulated long ones.",
+   note="sequential histories; interleavings of freelist Put/Flush/ToGC are explored by the concurrency engine; after a crash only the safety half is demanded (DESIGN.md §6 C13).",
+   ref="DESIGN.md §6 C13"),
 }
 
 NOT_APPLICABLE = [
@@ -72,7 +80,7 @@ def main():
         "hooks": {"guard": "verif (Go build tag)", "enable": "go build -tags verif (the harness in /verif/harness is built with -tags verif against /repo via a replace directive)",
                   "baseline_off_cmd": BASELINE_OFF, "source_commits": [h.split()[0] for h in hooks_commits], "add_only": True},
         "engines": [
-            {"name": "seq", "path": "harness/cmd/vrun/seq.go + harness/internal/fsckread + spec/KV.tla + spec/StoreTrace.tla + tools/seqeng.py", "serves_properties": ["C01", "C02", "C04", "C09"], "kind_free_text": "TLC-generated call histories executed on a real store.Store; TLC total monitor over the recorded trace"},
+            {"name": "seq", "path": "harness/cmd/vrun/seq.go + harness/internal/fsckread + spec/KV.tla + spec/StoreTrace.tla + tools/seqeng.py", "serves_properties": ["C01", "C02", "C04", "C07", "C09", "C13"], "kind_free_text": "TLC-generated call histories executed on a real store.Store; TLC total monitor over the recorded trace"},
             {"name": "bstore", "path": "harness/cmd/vrun/bstore.go + spec/Blockstore.tla + spec/BlockstoreTrace.tla", "serves_properties": ["C15"], "kind_free_text": "TLC state-graph replay on real HashedBlockstore + TLC trace monitor"},
             {"name": "fcache", "path": "harness/cmd/vrun/fcache.go + spec/FileCache.tla + spec/FileCacheTrace.tla", "serves_properties": ["C14"], "kind_free_text": "TLC state-graph replay on real FileCache + TLC trace monitor"},
             {"name": "reclist", "path": "harness/cmd/vrun/reclist.go + spec/RecordList.tla + spec/RecordListTrace.tla", "serves_properties": ["C08"], "kind_free_text": "TLC state-graph replay on real index.Index + TLC trace monitor"},
